@@ -242,8 +242,12 @@ Fixpoint ld_loop (BUFF : N) (file : list N) (fl : bool) (alloc : N) (fuel : nat)
            end
   end.
 
-(* [buf0] : the content of zs->inBuff before the call (arbitrary, BUFF bytes) *)
-Definition load_seek_table (BUFF : N) (file : list N) (buf0 : list N) : res seek_table :=
+Definition rbind {A B} (x : res A) (f : A -> res B) : res B :=
+  match x with Ok a => f a | Err c => Err c | Trap t => Trap t end.
+
+(* stage 1: read and check the footer.  [buf0] : the content of zs->inBuff before the call (arbitrary, BUFF bytes).
+   Result: the buffer, the checksum flag, numFrames *)
+Definition ld_footer (BUFF : N) (file : list N) (buf0 : list N) : res (list N * bool * N) :=
   match src_seek_end file FOOTER with
   | None => Err sk_E_seekableIO
   | Some fp =>
@@ -256,7 +260,12 @@ Definition load_seek_table (BUFF : N) (file : list N) (buf0 : list N) : res seek
   let sfd := nthN buf 4 0 in
   let fl := negb (sfd / 128 =? 0) in
   if negb ((sfd / 4) mod 32 =? 0) then Err sk_E_corruption_detected else
-  let numFrames := rd32 buf in
+  Ok (buf, fl, rd32 buf)
+  end end.
+
+(* stage 2: size arithmetic (U32), read the first chunk of the frame, check the skippable header.
+   Result: the state at the head of the entry loop *)
+Definition ld_header (BUFF : N) (file : list N) (buf : list N) (fl : bool) (numFrames : N) : res ldst :=
   let tableSize := w32 (spe fl * numFrames) in
   let frameSize := w32 (tableSize + FOOTER + SKIPHDR) in
   let remaining := sub32 frameSize FOOTER in
@@ -270,15 +279,16 @@ Definition load_seek_table (BUFF : N) (file : list N) (buf0 : list N) : res seek
   let buf := buf_store buf 0 data in
   if negb (rd32 buf =? SKIPMAGIC) then Err sk_E_prefix_unknown else
   if negb (w32 (rd32 (skipN buf 4) + SKIPHDR) =? frameSize) then Err sk_E_prefix_unknown else
+  Ok (mkL buf 8 (skipN buf 8) (sub32 remaining toRead) fp' 0 0 0 [])
+  end end.
+
+Definition load_seek_table (BUFF : N) (file : list N) (buf0 : list N) : res seek_table :=
+  rbind (ld_footer BUFF file buf0) (fun '(buf, fl, numFrames) =>
+  rbind (ld_header BUFF file buf fl numFrames) (fun s0 =>
   let alloc := w32 (numFrames + 1) in                     (* malloc(sizeof(seekEntry_t) * (numFrames + 1)) *)
-  let s0 := mkL buf 8 (skipN buf 8) (sub32 remaining toRead) fp' 0 0 0 [] in
-  match ld_loop BUFF file fl alloc (N.to_nat numFrames) s0 with
-  | Ok s =>
-      if alloc <=? numFrames then Trap 15                 (* entries[numFrames] *)
-      else Ok (mkT (revT (mkE (l_c s) (l_d s) 0 :: l_ents s)) numFrames fl)
-  | Err c => Err c
-  | Trap t => Trap t
-  end end end end end.
+  rbind (ld_loop BUFF file fl alloc (N.to_nat numFrames) s0) (fun s =>
+  if alloc <=? numFrames then Trap 15                     (* entries[numFrames] *)
+  else Ok (mkT (revT (mkE (l_c s) (l_d s) 0 :: l_ents s)) numFrames fl)))).
 
 (* ---- ZSTD_seekTable_offsetToFrameIndex ---- *)
 Fixpoint o2f_loop (t : seek_table) (pos : N) (fuel : nat) (lo hi : N) : res N :=
